@@ -45,3 +45,13 @@
      (= (strSplitN s "=" 2) (SCons (str.substr s 0 (str.indexof s "=" 0))
                             (SCons (str.substr s (+ (str.indexof s "=" 0) 1) (- (str.len s) (+ (str.indexof s "=" 0) 1))) SNil)))
      (= (strSplitN s "=" 2) (SCons s SNil))) :pattern ((strSplitN s "=" 2)))))
+; AX byteLen: at least one byte per code point, exactly one on ASCII text, zero only for the empty string
+(assert (forall ((s String)) (! (and (>= (byteLen s) (str.len s)) (=> (isAscii s) (= (byteLen s) (str.len s))) (= (= (byteLen s) 0) (= s "")))
+                              :pattern ((byteLen s)))))
+; AX strByte: a byte is 0..255; inside an ASCII prefix the i-th byte is the i-th code point
+(assert (forall ((s String) (i Int)) (! (and (<= 0 (strByte s i)) (< (strByte s i) 256)
+     (=> (and (<= 0 i) (< i (str.len s)) (isAscii (str.substr s 0 (+ i 1)))) (= (strByte s i) (str.to_code (str.at s i)))))
+                              :pattern ((strByte s i)))))
+; AX byteSub: cutting inside an ASCII prefix is cutting code points
+(assert (forall ((s String) (a Int) (b Int)) (! (=> (and (<= 0 a) (<= a b) (<= b (str.len s)) (isAscii (str.substr s 0 b))) (= (byteSub s a b) (str.substr s a (- b a))))
+                              :pattern ((byteSub s a b)))))
